@@ -646,7 +646,8 @@ static int parse_binding_parameter(int vp, int nbth, char * binding) {
             for (ht=0; ht < nbht ; ht++){
                 parsec_vpmap[vp].threads[t+ht].nbcores = 1;
                 parsec_vpmap[vp].threads[t+ht].cpuset = HWLOC_ALLOC();
-                HWLOC_SET(parsec_vpmap[vp].threads[t+ht].cpuset, core_tab[c]);
+                if( core_tab[c] > -1 )
+                    HWLOC_SET(parsec_vpmap[vp].threads[t+ht].cpuset, core_tab[c]);
                 parsec_vpmap[vp].threads[t+ht].ht = (nbht > 1 && core_tab[c] > -1) ? ht : -1;
             }
             c++;
